@@ -43,6 +43,58 @@ def all_orders(nodes, limit):
     return out
 
 
+def deep_history(ck, tier):
+    """a long chain (5,200 blocks; thorough: 11,000) and then a LATE block whose parent lies thousands of blocks below the
+    head: what the node reports at that block, at its parent and at other old blocks still equals the replay of their
+    ancestors"""
+    from skepticoin.coinstate import CoinState
+    if common.REDUCED:
+        return
+    depth = 5200 if tier == 'quick' else 11000
+    with chaingen.Env(period=10 ** 6) as env:
+        g = chaingen.genesis_node()
+        nodes = [g]
+        cs = CoinState.empty().add_block_no_validation(g.block)
+        par = g
+        for i in range(depth):
+            cb = chaingen.coinbase(par.height + 1, 10 ** 9, b'\x11' * 64, data=i.to_bytes(3, 'big'))
+            blk = chaingen.assemble(env, par, [cb], par.view.time + 60, mine=False)
+            par = chaingen.Node(blk, par, None)
+            nodes.append(par)
+            cs = cs.add_block_no_validation(blk)
+        for fork_at in (40, depth - 5100, depth // 2):
+            fp = nodes[fork_at]
+            cb = chaingen.coinbase(fp.height + 1, 10 ** 9, b'\x22' * 64, data=b'late%d' % fork_at)
+            fb = chaingen.assemble(env, fp, [cb], fp.view.time + 61, mine=False)
+            try:
+                cs = cs.add_block_no_validation(fb)
+            except Exception as e:
+                ck.violation('arrival-raises', 'a late block on a parent %d blocks below the head cannot be added: %s'
+                             % (depth - fork_at, type(e).__name__), {'deep': True, 'depth': depth, 'fork_at': fork_at})
+                continue
+            fbv = spec.BlockView(fb)
+            want = {}
+            for nd in nodes[:fork_at + 1]:
+                t = nd.view.txs[0]
+                for j, (v, pk) in enumerate(t.outputs):
+                    want[(t.id, j)] = (v, pk)
+            want_parent = dict(want)
+            want[(fbv.txs[0].id, 0)] = fbv.txs[0].outputs[0]
+            for label, hid, w in (('late block', fbv.id, want), ('its parent', fp.id, want_parent)):
+                ck.case(('deep', fork_at, label), kind='deep-history/' + label.replace(' ', '-'))
+                try:
+                    got = {(bytes(ref.hash), ref.index): (o.value, bytes(o.public_key.public_key))
+                           for ref, o in cs.unspent_transaction_outs_by_hash[hid].items()}
+                except Exception as e:
+                    ck.violation('utxo-not-replay', 'the unspent set at %s (%d blocks below the head) cannot be obtained: %s'
+                                 % (label, depth - fork_at, type(e).__name__), {'deep': True, 'depth': depth, 'fork_at': fork_at})
+                    continue
+                if got != w:
+                    ck.violation('utxo-not-replay', 'the unspent set reported at %s (%d blocks below the head) has %d entries, the '
+                                 'replay of its ancestors %d' % (label, depth - fork_at, len(got), len(w)),
+                                 {'deep': True, 'depth': depth, 'fork_at': fork_at})
+
+
 def run(tier, seed):
     ck = common.Check('C03', tier, seed)
     ck.rule = ('block trees with wallet-signed transactions (forks with diverging spends); arrival orders: creation order, '
@@ -227,6 +279,11 @@ def run(tier, seed):
             elif mb != bals:
                 ck.disagree('PublicKeyBalances vs model balances_at', rp)
         ck.extra['traces_validated_against_impl'] = len(reqs)
+    try:
+        deep_history(ck, tier)
+    except Exception:
+        import traceback
+        ck.disagree('deep-history probe crashed: %s' % traceback.format_exc()[-500:], {})
     return ck.finish()
 
 
